@@ -54,6 +54,7 @@ def required_counters(tier):
         "kind.dataclass": 10,
         "kind.property": 10,
         "hooked_module.runs": 2,
+        "env.then_update_steps": 100,
     }
 
 
@@ -272,7 +273,7 @@ def arm_config_update(rec, rng):
             got = "valueerror"
         except Exception as e:  # noqa
             got = "exc:" + type(e).__name__
-        config.jaxtyping_disable = False
+        config.update("jaxtyping_disable", False)
         rec.count("update.illegal")
         rec.case(("update-illegal", repr(v)), True)
         if got != "valueerror":
@@ -423,6 +424,31 @@ try:
             out["hooked_dataclass"] = "constructed"
         except Exception as e:
             out["hooked_dataclass"] = "exc:" + type(e).__name__
+    # the environment only gives the INITIAL value: config.update flips it both ways afterwards, for explicitly
+    # decorated code and for a module that was imported through the hook in whichever state the process started
+    steps = []
+    cur = out["disable"]
+    spell = {True: [True, "1", "TRUE", "true"], False: [False, "0", "false", "False"]}
+    for i in range(4):
+        cur = not cur
+        jaxtyping.config.update("jaxtyping_disable", spell[cur][i])
+        st = {"set": repr(spell[cur][i]), "want_disabled": cur, "flag": jaxtyping.config.jaxtyping_disable}
+        try:
+            st["f"] = f(np.zeros(2, dtype="float32"), np.zeros(3, dtype="float32"))
+        except Exception as e:
+            st["f"] = "exc:" + type(e).__name__
+        if len(sys.argv) > 1:
+            try:
+                st["g"] = jtv_c19_hooked.g(np.zeros(2, dtype="float32"), np.zeros(3, dtype="float32"))
+            except Exception as e:
+                st["g"] = "exc:" + type(e).__name__
+            try:
+                jtv_c19_hooked.D(np.zeros((2, 2), dtype="float32"))
+                st["D"] = "constructed"
+            except Exception as e:
+                st["D"] = "exc:" + type(e).__name__
+        steps.append(st)
+    out["steps"] = steps
 except ValueError as e:
     out["import"] = "valueerror"
 except Exception as e:
@@ -486,6 +512,18 @@ def arm_env(rec, shard):
                 exp_dc = "constructed" if want else "exc:TypeCheckError"
                 if out.get("hooked_dataclass") != exp_dc:
                     rec.violation("env-behaviour", case, f"hooked dataclass under JAXTYPING_DISABLE={v!r}: {out.get('hooked_dataclass')}, expected {exp_dc}", mechanism="hooked-dataclass-" + ("disabled-still-checks" if want else "enabled-not-checking"))
+            for k, st in enumerate(out.get("steps", [])):
+                rec.count("env.then_update_steps")
+                rec.case(("env", v, hooked, "step", k), True)
+                wd = st["want_disabled"]
+                c2 = dict(case, step=k, update=st["set"])
+                if st["flag"] is not wd:
+                    rec.violation("env-then-update", c2, f"JAXTYPING_DISABLE={v!r}, then config.update('jaxtyping_disable', {st['set']}) (step {k}): flag reads {st['flag']!r}", mechanism="update-after-env-flag-wrong")
+                    continue
+                for who, exp in (("f", "ran" if wd else "exc:TypeCheckError"), ("g", "ran" if wd else "exc:TypeCheckError"), ("D", "constructed" if wd else "exc:TypeCheckError")):
+                    if who in st and st[who] != exp:
+                        what = {"f": "explicitly decorated function", "g": "function of the hooked module", "D": "dataclass of the hooked module"}[who]
+                        rec.violation("env-then-update", c2, f"JAXTYPING_DISABLE={v!r}, then config.update('jaxtyping_disable', {st['set']}) (step {k}): ill-typed use of the {what} gave {st[who]}, expected {exp}", mechanism=f"update-after-env-{who}-" + ("still-checks" if wd else "not-checking"))
     finally:
         import shutil
 
